@@ -618,12 +618,12 @@ func TestC32(t *testing.T) {
 		}
 	}
 	rng := r.Rand("sequential")
-	n := r.N(6000, 60000)
+	n := r.N(6000, 300000)
 	for i := 0; i < n && r.Violations() < 12 && closeHangs < 20 && !gaveUp; i++ {
 		judgeSeq(c32GenSeq(rng))
 	}
 	crng := r.Rand("concurrent")
-	m := r.N(600, 6000)
+	m := r.N(600, 30000)
 	for i := 0; i < m && r.Violations() < 12 && closeHangs < 20 && !gaveUp; i++ {
 		c := c32Case{MaxSize: c32Maxes[crng.IntN(len(c32Maxes))], Timer: crng.IntN(2) == 0}
 		if c.MaxSize < 16 {
